@@ -746,8 +746,8 @@ fn explore(ctx: &mut Ctx, c13: bool) {
     // random long histories
     let n = ctx.by_tier(60_000, 2_000_000);
     let strat = (
-        proptest::collection::vec(0usize..8, 0..14),
-        0usize..4,
+        proptest::collection::vec(0usize..8, 0..40),
+        0usize..6,
         proptest::collection::vec((0usize..18, 0usize..11, 0usize..8), 1..13),
     );
     ctx.prop("parser_ops", n, strat, |ctx, v| {
@@ -765,7 +765,8 @@ fn explore(ctx: &mut Ctx, c13: bool) {
 pub fn fold_case((syms, b, ops): &(Vec<usize>, usize, Vec<(usize, usize, usize)>)) -> Case {
     const SYM: [&str; 8] = ["a", ",", " ", "é", "1", "-", "true", "漢"];
     let orig: String = syms.iter().map(|&i| SYM[i]).collect();
-    let base = [0usize, 1, 1000, 1 << 31][*b];
+    let base = [0usize, 1, 1000, 1 << 31][*b % 4];
+    let base = if *b >= 4 { (u32::MAX as usize) - orig.len() } else { base };
     let ps = pats();
     let ops = ops
         .iter()
